@@ -48,6 +48,8 @@ type Universe struct {
 	late           lateQueue
 	bg             atomic.Int64 // background goroutines of transactions begun through the harness
 	closed         bool
+	panicMu        sync.Mutex
+	panics         []BackendPanic
 }
 
 // ClientStore is one KVStore with its interposers.
@@ -224,8 +226,16 @@ func (u *Universe) Close() {
 // SplitAt splits the region containing key at key (raw key).  Returns false
 // if key already is a region start.
 func (u *Universe) SplitAt(key []byte) bool {
-	region, leader, _, _ := u.Cluster.GetRegionByKey(key)
-	if region == nil || len(key) == 0 {
+	if len(key) == 0 {
+		return false
+	}
+	lookup := key
+	if u.Backend == Uni {
+		// unistore's region manager compares against its memcomparable-encoded region keys
+		lookup = codec.EncodeBytes(nil, key)
+	}
+	region, leader, _, _ := u.Cluster.GetRegionByKey(lookup)
+	if region == nil {
 		return false
 	}
 	if len(region.StartKey) > 0 {
@@ -300,4 +310,26 @@ func (u *Universe) AdvanceClock(ms int64) {
 	u.Log.Notef("clock +%dms", ms)
 }
 
-var enableFailpointsOnce sync.Once
+// BackendPanic is a panic of the in-process store while serving a request.
+type BackendPanic struct {
+	Msg  string
+	Call string
+	Req  string
+	Seq  int64
+}
+
+func (u *Universe) notePanic(msg string, c *Call, req *tikvrpc.Request) {
+	u.panicMu.Lock()
+	defer u.panicMu.Unlock()
+	region, _, _, _ := u.Cluster.GetRegionByKey(nil)
+	_ = region
+	u.panics = append(u.panics, BackendPanic{Msg: msg, Call: c.String(), Seq: c.Seq,
+		Req: fmt.Sprintf("%s region=%d ver=%d conf=%d body={%v}", req.Type, req.Context.GetRegionId(), req.Context.GetRegionEpoch().GetVersion(), req.Context.GetRegionEpoch().GetConfVer(), req.Req)})
+}
+
+// Panics returns the back-end panics recorded so far.
+func (u *Universe) Panics() []BackendPanic {
+	u.panicMu.Lock()
+	defer u.panicMu.Unlock()
+	return append([]BackendPanic(nil), u.panics...)
+}
